@@ -82,4 +82,12 @@ PROPS = {
             R("h23", "c05", "TestC05_SignVerify", (6000, 8), (150000, 16, 3000)),
         ],
     },
+    "C13": {
+        "level": "exploration",
+        "units": [
+            R("h23", "c13", "TestC13_RoundTrip", (15000, 8), (500000, 16, 3000)),
+            R("h23", "c13", "TestC13_Decode", (100000, 8), (2000000, 16, 3000)),
+        ],
+        "fuzz": [{"mod": "h23", "pkg": "c13", "target": "FuzzC13_Decode", "secs": 300}],
+    },
 }
